@@ -49,6 +49,8 @@ type World struct {
 	fileOfPos map[*token.File]*ast.File
 	fnDecl    map[*ssa.Function]ast.Node
 	memo      map[string]interface{}
+
+	escFuncParam ssa.Value // set while a shared sanitiser helper is examined: the parameter that holds the escape lookup
 }
 
 type LoadOpts struct {
